@@ -24,3 +24,43 @@ Definition gen_from_vectors (a b c : R * R * R) : R * R * R * (R * R * R) :=
     ((dot a b) / ((sqrt (dot a a)) * (sqrt (dot b b)))))).
 
 Definition gen_snap_tol : R := / 1000000.
+
+(* ---- the same two functions with the angles themselves (degrees) as arguments: the source converts with
+   `x * np.pi / 180` before np.cos / np.sin and with `np.arccos(.) * 180.0 / np.pi` on the way back (the translator accepts
+   exactly these two forms) *)
+Definition gen_deg2rad (x : R) : R := x * PI / 180.
+Definition gen_rad2deg (x : R) : R := x * 180 / PI.
+
+Definition gen_to_vectors_deg (la lb lc alpha beta gamma : R) : (R * R * R) * (R * R * R) * (R * R * R) :=
+  gen_to_vectors la lb lc (cos (gen_deg2rad alpha)) (cos (gen_deg2rad beta)) (cos (gen_deg2rad gamma)) (sin (gen_deg2rad gamma)).
+
+Definition gen_from_vectors_deg (a b c : R * R * R) : R * R * R * (R * R * R) :=
+  let '(l, (x, y, z)) := gen_from_vectors a b c in
+  (l, (gen_rad2deg (acos x), gen_rad2deg (acos y), gen_rad2deg (acos z))).
+
+(* ---- lengths_and_angles_to_tilt_factors: the six returned numbers in return order (lx, ly, lz, xy, xz, yz);
+   ca cb cg: np.cos(np.deg2rad(.)) of the 4th, 5th, 6th argument *)
+Definition gen_tilt_factors (la lb lc ca cb cg : R) : R * R * R * R * R * R :=
+  (la,
+   (sqrt ((lb * lb) - ((lb * cg) * (lb * cg)))),
+   (sqrt (((lc * lc) - ((lc * cb) * (lc * cb))) - (((((lb * lc) * ca) - ((lb * cg) * (lc * cb))) / (sqrt ((lb * lb) - ((lb * cg) * (lb * cg))))) * ((((lb * lc) * ca) - ((lb * cg) * (lc * cb))) / (sqrt ((lb * lb) - ((lb * cg) * (lb * cg)))))))),
+   (lb * cg),
+   (lc * cb),
+   ((((lb * lc) * ca) - ((lb * cg) * (lc * cb))) / (sqrt ((lb * lb) - ((lb * cg) * (lb * cg)))))).
+
+(* ---- the glue of mdtraj/core/trajectory.py, one frame: Trajectory.unitcell_vectors getter (which stored column goes to which
+   argument; which returned vector becomes which row) and setter (which row goes to which argument; which returned number
+   goes to which stored column), before the snap *)
+Definition gen_getter_frame (l a : R * R * R) : (R * R * R) * (R * R * R) * (R * R * R) :=
+  let '(l0, l1, l2) := l in let '(a0, a1, a2) := a in
+  let '(v1, v2, v3) := gen_to_vectors_deg l0 l1 l2 a0 a1 a2 in
+  (v1, v2, v3).
+
+Definition gen_setter_frame (m : (R * R * R) * (R * R * R) * (R * R * R)) : (R * R * R) * (R * R * R) :=
+  let '(r0, r1, r2) := m in
+  let v1 := r0 in let v2 := r1 in let v3 := r2 in
+  let '((a, b, c), (alpha, beta, gamma)) := gen_from_vectors_deg v1 v2 v3 in
+  ((a, b, c), (alpha, beta, gamma)).
+
+(* `vectors is None or np.all(np.abs(vectors) < 1e-15)` *)
+Definition gen_zero_tol : R := / 1000000000000000.
